@@ -73,6 +73,12 @@ CHECKS["C04"] = ("model_checking",
     "Positional arguments of a partial application placed after a keyword partial of an earlier parameter are not a well-defined presentation (the library lets the positional overwrite the keyword) and are not generated; var-positional / positional-only signatures are excluded by the statement.",
     "DESIGN.md §3 C04")
 
+CHECKS["C11"] = ("model_checking",
+    "bounded-exhaustive enumeration of mementos through the real codec; oracle = field-wise round trip + recomputed argument hash + strict JSON parser + pinned wire structure",
+    "Every value of the argument alphabet (depth 1 quick / 2 thorough) in positional, keyword, context and partial-argument position, function references with partials, invocation and resource lists, content keys (none, plain, containing '#', empty version), result types, runtimes, times (UTC, offset, naive), runner dicts and correlation ids are encoded with MementoCodec, dumped, parsed with a parser that rejects NaN/Infinity tokens, validated against the exact field names and {type, value} argument encoding, decoded and compared field by field (datetimes by instant and offset), and the argument hash is recomputed from the decoded arguments.",
+    "Known finding (recorded, not repaired): non-finite floats are emitted as bare NaN/Infinity tokens. Versions containing '#' are outside the alphabet (versions are uuids or empty).",
+    "DESIGN.md §3 C11")
+
 PENDING = {}
 
 
